@@ -174,6 +174,17 @@ def run(tier, seed):
             if not common.bits_equal(float(t["pre"]["stepsize"]), osteps[k]):
                 problems.append(f"step recorded for proposal {k} is not the one that generated it")
                 break
+        # the update rule in the property's own words, recomputed from the observed acceptance probabilities
+        for k in range(min(len(osteps), len(rates)) - 1):
+            a = rates[k]
+            a = 0.0 if a != a else min(a, 1.0)
+            want = osteps[k] - (k + 1) ** (-desc["lr"]) * (desc["target_acceptance_rate"] - a)
+            if want <= 0:
+                want = max(want, float(s.minimal_stepsize))
+            if not common.close(osteps[k + 1], want, 1e-12, 1e-300):
+                problems.append(f"update rule: after proposal {k} (acceptance probability {rates[k]!r}, step {osteps[k]!r}) the step became {osteps[k + 1]!r}; "
+                                f"(i+1)^-lr (min(a,1) - target) with NaN counting as 0, clamped, gives {want!r}")
+                break
         if problems:
             findings.append(Finding("C16", f"{desc['sampler']} autotuned run of {desc['proposals']} proposals: {problems[0]}",
                                     {"kind": "history", "problem": problems[0].split(" ")[0] + " " + problems[0].split(" ")[1]},
